@@ -10,6 +10,7 @@ import (
 	"fmt"
 	"os"
 	"path/filepath"
+	"sort"
 	"strings"
 )
 
@@ -211,6 +212,41 @@ func runHistOracle(args []string) int {
 			fmt.Fprintln(os.Stderr, "VIOL", v.Desc, v.Replay)
 		}
 		return 0
+	}
+	// corpus first: directed histories (minimised past failures, known findings) from $VERIF_CORPUS/*.hist
+	if dir := os.Getenv("VERIF_CORPUS"); dir != "" {
+		files, _ := filepath.Glob(filepath.Join(dir, "*.hist"))
+		sort.Strings(files)
+		for _, f := range files {
+			b, err := os.ReadFile(f)
+			if err != nil {
+				continue
+			}
+			var st []string
+			for i, l := range strings.Split(string(b), "\n") {
+				if i == 0 || l == "" || strings.HasPrefix(l, "#") {
+					continue
+				}
+				st = append(st, l)
+			}
+			h, err := runHistory(nil, cfg, st)
+			res.Evaluations++
+			res.Stats["corpus"]++
+			if h == nil {
+				continue
+			}
+			if err != nil {
+				h.violate("PANIC", "corpus history aborted: "+err.Error())
+			}
+			seen := map[string]bool{}
+			for _, v := range cfg.relevant(h) {
+				if seen[v.Prop] {
+					continue
+				}
+				seen[v.Prop] = true
+				report(h, st, v, "corpus history "+filepath.Base(f))
+			}
+		}
 	}
 	r := NewRng(*seed)
 	reported := map[string]int{}
